@@ -52,7 +52,7 @@ func (e *c01Env) counts() (held, assigned int) {
 
 func TestVerifC01Seq(t *testing.T) {
 	defer c01PinGates()()
-	kit.Run(t, kit.Config{Property: "C01", Unit: "seq", Quick: 700, Thorough: 24000,
+	kit.Run(t, kit.Config{Property: "C01", Unit: "seq", Quick: 450, Thorough: 24000,
 		Rule: "histories of 40-200 operations on a real GroupQuotaManager: tree of 3-7 groups (depth <= 3, one fixed dimension set cpu,memory[+1 extended]), 4-12 pods that also request an undeclared dimension; pod add/update/label change/delete/reserve/unreserve/migrate/duplicate and unknown events 75%, quota set-max/min/weight/lent/is-parent/re-parent/delete/re-create/reset 20%, nodes 5%; oracle after every operation, fresh-manager and ResetQuota differentials every 25 operations; distinct = (tree shape, operation kind, #pods held, #pods assigned); non-trivial = case with >= 1 re-parent or delete of a group with non-zero subtree totals"},
 		func(c *kit.Case) {
 			r := c.R
@@ -136,13 +136,14 @@ func TestVerifC01Seq(t *testing.T) {
 //   - before a round the quota goroutine's private groups are fixed: "doomed" groups are the only
 //     ones it may delete, "reserved" groups (no pods) the only leaves it may turn into parents,
 //     groups it creates get names nobody uses yet; workers send pods only to the remaining
-//     stable non-parent groups (and default/system) and do not MigratePod out of a doomed group;
+//     stable non-parent groups (and default/system); MigratePod moves pods out of the default
+//     group only, which is never deleted;
 //   - a pod that is in a doomed group at the end of the round (by the worker's bookkeeping) has
 //     been dropped with the group in either order (deleted first: the later event finds no group).
 
 func TestVerifC01Conc(t *testing.T) {
 	defer c01PinGates()()
-	kit.Run(t, kit.Config{Property: "C01", Unit: "conc", Quick: 260, Thorough: 9000,
+	kit.Run(t, kit.Config{Property: "C01", Unit: "conc", Quick: 220, Thorough: 9000,
 		Rule: "3-6 rounds per case on a real GroupQuotaManager under the race detector: 4-8 worker goroutines issue 6-14 pod operations each on disjoint pods (8-16 pods), one goroutine issues 2-6 quota mutations (set-max/min/weight/lent, re-parent, delete of pre-selected groups, create, reset, nodes), one goroutine reads (RefreshRuntime, summaries, snapshot); yields between operations; oracle (recompute from scratch) at each quiescent point, fresh-manager and ResetQuota differentials at the end; distinct = (tree shape, #workers, #pods held, #pods assigned, quota operation kinds of the round); non-trivial = case with >= 1 re-parent or delete of a group with non-zero subtree totals issued concurrently with pod events"},
 		func(c *kit.Case) {
 			r := c.R
@@ -212,7 +213,7 @@ func (e *c01Env) concRound(r *kit.Rand, round int) {
 	ctls := make([]*c01PodCtl, nworkers)
 	for w := 0; w < nworkers; w++ {
 		w, wr := w, r.Fork()
-		ctls[w] = &c01PodCtl{dests: dests, noMigrateFrom: doomed}
+		ctls[w] = &c01PodCtl{dests: dests}
 		var mine []*c01Pod
 		for _, p := range m.pods {
 			if p.slot%nworkers == w {
